@@ -1,5 +1,6 @@
 import Gocc.Gen.Frontend
 import Gocc.Props.C02
+import Gocc.Props.C02Complete
 /-
 C15 — the front end accepts exactly the token language of spec/gocc2.ebnf.
 
@@ -34,5 +35,30 @@ theorem C15_accept_implies_sentence {w : List Nat} (hw : 1 ∉ w) {cfg : PCfg} (
     {fuel : Nat} {old : PState} {r : Attr} (h : (parse cfg w fuel old).1 = Outcome.accept r) :
     NSentence feG w :=
   C02_accept_sound C15_tables_safe C15_tables_safeEnds (noRecovery_of_all C15_no_recovery_states) hw hT h
+
+end Gocc
+
+/-! ### The other direction: every sentence of the ebnf is accepted -/
+namespace Gocc
+open Gocc.Gen
+
+set_option maxRecDepth 1000000 in
+theorem C15_first_cert_closed : firstOk feG feFirst = true := by decide
+
+set_option maxRecDepth 1000000 in
+theorem C15_tables_complete : complete feG feT feFirst feCertLA = true := by decide
+
+set_option maxRecDepth 1000000 in
+theorem C15_actions_total : kindsTotal feT = true := by decide
+
+/-- C15 at full strength, for ALL finite sequences `w` of front-end tokens (end of input is
+    implicit, so `w` itself contains no end-of-input token): gocc's own table-driven parser accepts
+    `w` (with enough fuel; the real loop has none) exactly when `w` is a sentence of spec/gocc2.ebnf. -/
+theorem C15_accepts_iff_sentence {w : List Nat} (hw : 1 ∉ w) {cfg : PCfg} (hT : cfg.T = feT)
+    (h0 : cfg.failAt = 0) (old : PState) :
+    (∃ fuel r, (parse cfg w fuel old).1 = Outcome.accept r) ↔ NSentence feG w :=
+  C02_accept_iff_sentence C15_tables_safe C15_tables_safeEnds C15_first_cert_closed C15_tables_complete
+    (noRecovery_of_all C15_no_recovery_states)
+    (C02_actsOk_of_kindsTotal h0 (by rw [hT]; exact C15_actions_total)) hT hw old
 
 end Gocc
